@@ -738,7 +738,7 @@ def classify(msg):
         return 'invariant'
     if 'postcondition' in m:
         return 'postcondition'
-    if 'precondition' in m:
+    if 'precondition' in m or 'fails to satisfy' in m:
         return 'precondition'
     if 'invariant' in m:
         return 'invariant'
@@ -863,6 +863,11 @@ def analyse(out, res, unit):
                     break
         if kind == 'other':
             hard.append(msg)
+            continue
+        if f is not None and f.get('default') and kind == 'precondition':
+            # a function that only carries its type's default contract (e.g. a helper added by a refactoring) cannot establish a
+            # callee's precondition because nothing states its own: undecided, not a violation
+            undecided.append('@props=%s@ %s carries only the default contract of its type; precondition of a callee not established: %s' % (','.join(f['props']), f['id'], msg))
             continue
         if kind == 'rlimit':
             undecided.append('%s: %s' % (f['id'] if f else '?', msg))
@@ -1138,6 +1143,11 @@ def check(prop, tier):
     obligations = []
     for r in results:
         for u in r['undecided']:
+            m = re.match(r'@props=([^@]*)@ (.*)', u, re.S)
+            if m:
+                if prop not in m.group(1).split(','):
+                    continue   # concerns a function that does not bear on this property
+                u = m.group(2)
             undecided.append('%s: %s' % (r['unit'], u))
         for f in r['fails']:
             if prop in f['props']:
@@ -1182,13 +1192,28 @@ def check(prop, tier):
     rc = 0
     replay_paths = []
     os.makedirs(os.path.join(ROOT, 'replays'), exist_ok=True)
+    # concrete scenarios on the real code: counterexample search when an obligation failed, bounded stand-in when undecided
+    wit = None
+    if violations or undecided:
+        try:
+            import witness as _w
+            wit = _w.run([prop])
+        except Exception as e:
+            wit = {'inconclusive': 'witness runner failed: %s' % e, 'failed': [], 'ran': 0, 'passed': 0, 'files': []}
+        if not violations and wit.get('failed'):
+            # undecided deductively, but a concrete scenario fails on the real code: a violation with a replayable input
+            violations.append({'unit': 'witness', 'fn': None, 'key': 'bounded:' + wit['failed'][0]['test'], 'kind': 'bounded-scenario',
+                               'message': 'deductive check undecided (%s); concrete scenario fails on the real code' % (undecided[0][:160] if undecided else ''),
+                               'label': None, 'props': [prop], 'spans': [], 'src': None, 'rendered': wit['failed'][0]['output']})
     for k, f in knowns:
         print('KNOWN-FINDING: property=%s %s (%s %s %s)' % (prop, k.get('what', ''), f['unit'], f['fn'], f['key']))
     if violations:
         rc = 1
         for n, f in enumerate(violations):
             path = os.path.join(ROOT, 'replays', '%s-%s-%d.json' % (prop, time.strftime('%Y%m%dT%H%M%S'), n))
-            witness = find_witness(prop, f)
+            witness = None
+            if wit and wit.get('failed'):
+                witness = {'kind': 'concrete scenario failing on the real code', 'tests': wit['failed'], 'cmd': wit['failed'][0]['cmd']}
             json.dump({'property': prop, 'failed_obligation': f.get('key'), 'unit': f.get('unit'), 'function': f.get('fn'),
                        'kind': f.get('kind'), 'verifier_message': f.get('message'), 'source': f.get('src'),
                        'spans': f.get('spans'), 'verifier_output': f.get('rendered'), 'witness': witness,
@@ -1202,6 +1227,9 @@ def check(prop, tier):
         rc = 2
         for u in undecided:
             print('UNDECIDED property=%s %s' % (prop, u))
+    if wit is not None:
+        extra = list(extra) + [{'name': 'witness-scenarios (bounded, not counted as proved)', 'files': wit.get('files'), 'ran': wit.get('ran'), 'passed': wit.get('passed'),
+                                'failed': [x['test'] for x in wit.get('failed', [])], 'inconclusive': wit.get('inconclusive'), 'backends': ['cargo-test (bounded)']}]
     write_evidence(prop, tier, seed, results, extra, obligations, n_ob, n_dis, violations, knowns, undecided, time.time() - t0)
     if rc == 0:
         print('OK property=%s obligations=%d discharged=%d units=%s wall=%.1fs' % (prop, n_ob, n_dis, ','.join(units), time.time() - t0))
